@@ -62,6 +62,8 @@ def plan(tier, seed):
                                 if timer and cbl in ("R", "LS") and tier == "quick":
                                     continue
                                 cfgs.append(dict(kind=kind, e0=e0, E=E, N=N, pb=pb, cbl=cbl, timer=timer))
+                                if cbl == "RS" and not timer and N == 2 and kind == "positive":
+                                    cfgs.append(dict(kind=kind, e0=e0, E=E, N=N, pb=pb, cbl=cbl, timer=timer, extras=True))
                                 if cbl == "RS" and not timer and N == 3 and pb in (1, 2):
                                     # the number of batches is ceil(N / pos_batch_size) whatever the negative batch size
                                     for negb in (1, 2, 3):
@@ -70,6 +72,26 @@ def plan(tier, seed):
     items = [dict(layer="tlc", E0=e0, E=E, NB=nb) for (e0, E, nb) in tlc_sets(tier)]
     items += [dict(layer="py", configs=cfgs[j:j + 10]) for j in range(0, len(cfgs), 10)]
     return items
+
+
+@contextlib.contextmanager
+def _quiet_fd2(active):
+    """tqdm writes its progress bar to the process's stderr; silence file descriptor 2 while it does"""
+    if not active:
+        yield
+        return
+    import os as _os
+    import sys as _sys
+    _sys.stderr.flush()
+    saved = _os.dup(2)
+    devnull = _os.open(_os.devnull, _os.O_WRONLY)
+    try:
+        _os.dup2(devnull, 2)
+        yield
+    finally:
+        _os.dup2(saved, 2)
+        _os.close(saved)
+        _os.close(devnull)
 
 
 def make_callbacks(cfg, tape, glog, state):
@@ -149,9 +171,11 @@ def run_fit(cfg, tape, pre=False):
     env = Owned(None, mode="observe")
     out = []
     try:
-        with env, contextlib.redirect_stdout(io.StringIO()):
+        with env, contextlib.redirect_stdout(io.StringIO()), _quiet_fd2(cfg.get("extras")):
             if cfg.get("negb"):
                 kw["neg_batch_size"] = cfg["negb"]
+            if cfg.get("extras"):
+                kw.update(progbar=True, some_ignored_keyword=1)  # a progress bar and an ignored keyword change nothing
             call(st.fit, data, epochs=E, starting_epoch=e0, pos_batch_size=pb, time=cfg.get("timer", False), callbacks=cbs, **kw)
     except LibRaised as e:
         return [(f"protocol:fit-raised:{e.kind}", dict(tb=e.tb))], None, 0
@@ -195,7 +219,7 @@ def run_fit(cfg, tape, pre=False):
         was = st.stop_training
         state["injected"] = True  # no further injection
         try:
-            with contextlib.redirect_stdout(io.StringIO()):
+            with contextlib.redirect_stdout(io.StringIO()), _quiet_fd2(cfg.get("extras")):
                 call(st.fit, data, epochs=E, starting_epoch=e0, pos_batch_size=pb, callbacks=cbs, **kw)
                 if was and (len(glog) != n0 or params_hash(st) != h1 or not st.stop_training):
                     out.append(("protocol:second-fit-after-stop-request-did-something", dict(new_events=len(glog) - n0)))
@@ -308,7 +332,7 @@ def replay(case):
         cfg = dict(kind="positive", e0=e0, E=E, N=nb, pb=1, cbl="SR", timer=False)
         pre = len(case.get("trace", [1])) == 0
     else:
-        cfg = {k: case[k] for k in ("kind", "e0", "E", "N", "pb", "cbl", "timer", "negb") if k in case}
+        cfg = {k: case[k] for k in ("kind", "e0", "E", "N", "pb", "cbl", "timer", "negb", "extras") if k in case}
         pre = case.get("pre", False)
     viols, tr, nev = run_fit(cfg, T.Tape(case["tape"]), pre)
     acc.ev(1)
